@@ -12,7 +12,7 @@ from dataclasses import dataclass, field
 from hypothesis import strategies as st
 
 LEAF_KINDS = ["mark", "quick", "slow", "ova", "ovb", "set", "flow", "wait", "info", "notify", "incr", "runcounter",
-              "batch", "simulate", "simoff", "base", "blank", "comment", "pause", "hold", "callmacro", "endblock",
+              "batch", "simulate", "simoff", "base", "blank", "comment", "pause", "hold", "unpause", "unhold", "callmacro", "endblock",
               "endblocks", "stop", "restart", "valve"]
 CONTAINER_KINDS = ["block", "watch", "alarm", "macro"]
 
@@ -196,6 +196,8 @@ def render(tree: dict, id_prefix: str = "n") -> list[Line]:
                 emit("Wait: %ss" % _fmt(n["d"]), k, None, depth, parent, n, thr=t)
             elif k in ("pause", "hold"):
                 emit(k.capitalize() if n.get("d") is None else "%s: %ss" % (k.capitalize(), _fmt(n["d"])), k, None, depth, parent, n, thr=t)
+            elif k in ("unpause", "unhold"):
+                emit(k.capitalize(), k, None, depth, parent, n, thr=t)
             elif k == "info":
                 emit("Info: i%d" % N, k, "i%d" % N, depth, parent, n, thr=t)
             elif k == "notify":
